@@ -667,7 +667,12 @@ func (l *List) CombineN(sta funcGen.Stack[Value]) (*List, error) {
 		}
 		return NewListFromIterable(func(st funcGen.Stack[Value]) iterator.Producer[Value] {
 			return iterator.CombineN[Value, Value](l.iterable(st), int(n), func(i0 int, i []Value) (Value, error) {
-				st.Push(NewList(i...))
+				// i is a ring buffer which starts at i0 and is reused for the next group
+				items := make([]Value, len(i))
+				for k := range items {
+					items[k] = i[(i0+k)%len(i)]
+				}
+				st.Push(NewList(items...))
 				return f.Func(st.CreateFrame(1), nil)
 			})
 		}), nil
